@@ -222,13 +222,13 @@ def replay_envpair_vs_keyword(o):
     configurations and run the real StepHash.from_inp on both."""
     from vc.report import model_of
 
-    m = model_of(o, ["n!0", "v!0", "u!0"])
+    m = model_of(o, ["n", "v", "u"])
     if m is None:
         return dict(reproduced=False, reason="no model")
-    n, v = m.get("n!0"), m.get("v!0")
+    n, v = m.get("n"), m.get("v")
     if not isinstance(n, str) or not isinstance(v, str):
         return dict(reproduced=False, reason=f"model not usable: {m}")
-    if m.get("u!0") is True or "\0" in n or "\0" in v or v == "":
+    if m.get("u") is True or "\0" in n or "\0" in v or v == "":
         v = "a"
     code = (
         "from stepup.core.hash import StepHash\n"
